@@ -36,9 +36,12 @@ static void email_check(const char *sub, const char *v, size_t n) {
     static const email_fn EM[4] = { is_822_email, is_5321_email, is_5322_email, is_6531_email };
     static const char *const MN[4] = { "822", "5321", "5322", "6531" };
     /* the label in front of the row must not matter (unless the two together are a reserved name): a plain label, reserved words, another TLD, the row itself */
-    static const char *const FRONT[6] = { "a", "example", "test", "com", "xn--p1ai", NULL };
+    /* ... and every proper prefix and suffix of the reserved second-level word: a reserved-name shortcut that compares too few characters hides the row behind it */
+    static const char *const FRONT[] = { "a", "example", "test", "com", "xn--p1ai", NULL, "e", "ex", "exa", "exam", "examp", "exampl", "examples", "xample", "ample", "le", "EXAMPL", "tes", "est",
+        "invalid", "localhost", "local", "onion", "www", "1", "a-b", "x-example", "example-x" };
+    enum { NFRONT = sizeof FRONT / sizeof FRONT[0] };
     int exp = rt_lookup(&RT_PUNY, v, n); if (!exp) return;
-    for (int f = 0; f < 6; f++) {
+    for (int f = 0; f < NFRONT; f++) {
         char a[700]; if (2 * n + 16 > sizeof a) return;
         size_t fl; if (FRONT[f]) { fl = strlen(FRONT[f]); memcpy(a + 2, FRONT[f], fl); } else { fl = n; memcpy(a + 2, v, n); }
         a[0] = 'x'; a[1] = '@'; a[2 + fl] = '.'; memcpy(a + 3 + fl, v, n); a[3 + fl + n] = 0; size_t an = 3 + fl + n;
